@@ -2,4 +2,6 @@ SPECIFICATION SSpec
 CONSTANTS Names = {"A"} Values = {"x", "v w"} MaxOps = 999 WalkLen = 4
 INVARIANT SAgree
 INVARIANT Emit
+CONSTANT ReadShapes <- ShapesAll
+CONSTANT ReadMax = 1
 CHECK_DEADLOCK FALSE
